@@ -94,7 +94,11 @@ func (in *Interp) fmtDecimal(x *term.Term, t types.Type) (Str, bool) {
 		} else {
 			d8 = term.ZExt(d, 8)
 		}
-		out = append(out, term.Add(d8, term.BVC(8, '0')))
+		ch := term.Add(d8, term.BVC(8, '0'))
+		// implied by mag < 10^digits: every character is a decimal digit. Stated as a
+		// path fact so that code parsing the text back need not rediscover it through div/rem.
+		in.Eng.Lemma(term.And(term.ULe(term.BVC(8, '0'), ch), term.ULe(ch, term.BVC(8, '9'))))
+		out = append(out, ch)
 	}
 	return Str{out}, true
 }
